@@ -697,3 +697,73 @@ package fzf
 //@ ensures result ==> item.text.Index == old(itemIndex) && itemIndex == old(itemIndex) + 1
 //@ ensures !result ==> itemIndex == old(itemIndex)
 //@ func ansiState.ToString trusted
+
+// ---------------------------------------------------------------- query editing, list cursor, selection (C09)
+//@ func copySlice
+//@ property C09
+//@ ensures fresh(result) && len(result) == len(slice) && forall(k, 0, len(slice), result[k] == slice[k])
+
+// findLastMatch: number of characters before the last match of the pattern in str, or -1.  The patterns
+// fzf passes match at least one character, so a match starts before the end of the string (assumed).
+//@ func findLastMatch trusted
+//@ ensures -1 <= result && result < nrunes(str)
+
+// rubout (unix-word-rubout, backward-kill-word): the text between the last word boundary and the cursor
+// moves to the kill buffer - a copy, not a view of the query - and is cut out of the query.
+//@ func Terminal.rubout
+//@ property C09
+//@ requires t != nil && 0 <= t.cx && t.cx <= len(t.input)
+//@ modifies t.cx, t.yanked, t.input, t.input[0:cap(t.input)]
+//@ assert @"t.yanked = copySlice" t.cx <= pcx
+//@ ensures 0 <= t.cx && t.cx <= old(t.cx)
+//@ ensures fresh(t.yanked) && len(t.yanked) == old(t.cx) - t.cx
+//@ ensures len(t.input) == old(len(t.input)) - (old(t.cx) - t.cx)
+
+//@ package github.com/junegunn/fzf/src/util
+//@ func Constrain
+//@ property C09
+//@ ensures min <= max ==> min <= result && result <= max && (min <= val && val <= max ==> result == val)
+//@ ensures result == (val < min ? min : (val > max ? max : val))
+//@ package github.com/junegunn/fzf/src
+
+// vset/vmove: the list cursor.  Without --cycle the cursor moves by o (towards the prompt in the default
+// layout, away from it in the reversed layouts) and is clamped to the list; with --cycle it wraps only from
+// the first/last result.
+//@ func Terminal.vset
+//@ property C09
+//@ requires t != nil && t.merger != nil && t.merger.count >= 0
+//@ modifies t.cy
+//@ ensures t.cy == (o < 0 ? 0 : (o > t.merger.count - 1 ? t.merger.count - 1 : o)) && result == (t.cy == o)
+//@ func Terminal.vmove
+//@ property C09
+//@ requires t != nil && t.merger != nil && t.merger.count >= 0
+//@ modifies t.cy
+//@ ensures !(t.cycle && allowCycle) ==> t.cy == clampc(old(t.cy) + (t.layout != layoutDefault ? -o : o), t.merger.count)
+//@ ensures t.merger.count > 0 ==> 0 <= t.cy && t.cy < t.merger.count
+//@ spec func clampc(v int, n int) int = v < 0 ? 0 : (v > n - 1 ? n - 1 : v)
+
+// Selection: nothing is selected beyond the --multi limit (multi == 0 without --multi), selecting or
+// deselecting one item leaves every other item's state alone, toggle flips exactly the item's own state.
+//@ func Terminal.selectItem
+//@ property C09
+//@ requires t != nil && item != nil && t.selected != nil
+//@ modifies map(t.selected), t.version
+//@ ensures result == (old(len(t.selected)) < t.multi)
+//@ ensures result ==> maphas(t.selected, item.text.Index)
+//@ ensures !result ==> len(t.selected) == old(len(t.selected)) && maphas(t.selected, item.text.Index) == old(maphas(t.selected, item.text.Index))
+//@ ensures old(len(t.selected)) <= t.multi ==> len(t.selected) <= t.multi
+//@ ensures forall(k, -2147483648, 2147483648, k != item.text.Index ==> maphas(t.selected, k) == old(maphas(t.selected, k)))
+//@ func Terminal.deselectItem
+//@ property C09
+//@ requires t != nil && item != nil
+//@ modifies map(t.selected), t.version
+//@ ensures !maphas(t.selected, item.text.Index) && len(t.selected) <= old(len(t.selected))
+//@ ensures forall(k, -2147483648, 2147483648, k != item.text.Index ==> maphas(t.selected, k) == old(maphas(t.selected, k)))
+//@ func Terminal.toggleItem
+//@ property C09
+//@ requires t != nil && item != nil && t.selected != nil
+//@ modifies map(t.selected), t.version
+//@ ensures result ==> maphas(t.selected, item.text.Index) == !old(maphas(t.selected, item.text.Index))
+//@ ensures !result ==> maphas(t.selected, item.text.Index) == old(maphas(t.selected, item.text.Index)) && len(t.selected) == old(len(t.selected))
+//@ ensures old(len(t.selected)) <= t.multi ==> len(t.selected) <= t.multi
+//@ ensures forall(k, -2147483648, 2147483648, k != item.text.Index ==> maphas(t.selected, k) == old(maphas(t.selected, k)))
